@@ -109,6 +109,9 @@ func (s *Server) ServeConn(c net.Conn) error {
 	sc.maxWindow = 1 << 22
 	sc.currentWindow = sc.maxWindow
 
+	// What the client has not said yet is the protocol default.
+	sc.clientS.Reset()
+
 	sc.st.Reset()
 	sc.st.SetMaxWindowSize(uint32(sc.maxWindow))
 	sc.st.SetMaxConcurrentStreams(uint32(s.cnf.MaxConcurrentStreams))
